@@ -8,9 +8,11 @@
        leave the digest unchanged whatever the hash function, edits that change the view
        change the preimage, so a still-accepting verification would need a hash collision
        on two explicit strings or one signature valid for two digests;
-   (c) acceptance of correctly signed P2PK / P2PKH / m-of-n / P2SH inputs and rejection of
-       foreign keys are checked by the correspondence run on the concrete curve
-       (IMPL = MODEL = SPEC prediction), not proved (see PARTIAL in tools/props/C05.py). *)
+   (c) acceptance of a correctly signed P2PK / P2PKH / bare m-of-n multisig / P2SH-wrapped input is
+       a theorem (C05_accept_*, below the commitment theorems): VerifyScript of the MODEL, with the
+       real oracle (RawSignatureHash + CECKey.verify over any curve satisfying curve_laws), returns
+       normally.  Rejection of foreign keys is checked by the correspondence run on the concrete
+       curve (IMPL = MODEL = SPEC prediction), not proved (see PARTIAL in tools/props/C05.py). *)
 From BV Require Import Common.Base Common.Tx Common.ScriptFlags Gen.Core Spec.Wire Spec.Sighash Spec.Commit Spec.ScriptRef
   Model.ScriptEval Proofs.Commit.
 
@@ -74,6 +76,223 @@ Example C05_nonvacuous :
   -> False.
 Proof. vm_compute. discriminate. Qed.
 
+(* ---------- acceptance of signed inputs (first clause of the property) ---------- *)
+From BV Require Import Gen.Key Model.Script Model.Sighash Model.SigCheck Model.Key Spec.Base58 Spec.Ecdsa Spec.Der
+  Model.Secp256k1 Proofs.Accept Proofs.AcceptMulti Proofs.AcceptBuild.
+(* Reading guide.  E : any group with curve_laws E whose order is the one the library's low-S
+   table belongs to; H = bitcoin.core.Hash (any function with 32-byte outputs); ripemd160 / sha1 /
+   sha256 = the interpreter's hash functions (any functions with outputs shorter than 2^31
+   bytes); fl = any flag set in which CLEANSTACK comes with P2SH (VerifyScript asserts it).
+   t = the transaction that was hashed, t' = the transaction that is verified: equal except
+   for scriptSigs and witness (in particular t with the new scriptSig installed).
+   idx = the input index (any Python int for which SignatureHash returns: the hypothesis
+   `signature_hash ... = Ok h` excludes exactly the inputs on which the library's SignatureHash
+   raises, e.g. SIGHASH_SINGLE without a matching output); ht = the hash type byte, all 256;
+   d = the secret, k = ECDSA's nonce (any usable one: 1 <= k < n, r <> 0, s <> 0);
+   pkb = any byte string that o2i_ECPublicKey decodes to d G (compressed, uncompressed, hybrid);
+   ref_push x = the bytes of `CScript([x])` (C08).  The signature pushed is CECKey.sign's output
+   followed by the hash type byte. *)
+Theorem C05_accept_p2pk : forall H E, curve_laws E -> c_n E < 2 ^ 256 ->
+  value_msb 256 max_mod_half_order = c_n E / 2 -> (forall b, length (H b) = 32%nat) ->
+  forall ripemd160 sha1 sha256 : bytes -> bytes,
+  (forall x, lenZ (ripemd160 x) < 2^31 /\ lenZ (sha1 x) < 2^31 /\ lenZ (sha256 x) < 2^31) ->
+  forall fl, (f_cleanstack fl = true -> f_p2sh fl = true) ->
+  forall t t' idx ht d k pkb h,
+  0 <= ht < 256 -> sec1_dec E pkb = Some (pub E d) ->
+  signature_hash H (ref_push pkb ++ [xac]) t idx ht = Ok h ->        (* <pubkey> OP_CHECKSIG *)
+  valid_nonce E d (be_dec h) k ->
+  (tx_version t' = tx_version t /\ tx_lock t' = tx_lock t /\ tx_vout t' = tx_vout t /\
+   Forall2 (fun a b => ti_prevout a = ti_prevout b /\ ti_seq a = ti_seq b) (tx_vin t) (tx_vin t')) ->
+  exists sigder, cec_sign E d h k = Ok sigder /\
+    verify_script (real_checksig H E t' idx) ripemd160 sha1 sha256 fl
+      (ref_push (sigder ++ [z2b ht])) (ref_push pkb ++ [xac]) = Ok tt.
+Proof. exact accept_p2pk. Qed.
+(* P2PKH: OP_DUP OP_HASH160 <hash160(pubkey)> OP_EQUALVERIFY OP_CHECKSIG, scriptSig <sig> <pubkey>.
+   Extra hypothesis, genuinely needed: sig||hashtype is not equal to the 20-byte key hash (the
+   interpreter's FindAndDelete(subscript, <push sig>) would otherwise delete the hash push from
+   the subscript that is hashed; DER does not exclude a 20-byte sig||hashtype). *)
+Theorem C05_accept_p2pkh : forall H E, curve_laws E -> c_n E < 2 ^ 256 ->
+  value_msb 256 max_mod_half_order = c_n E / 2 -> (forall b, length (H b) = 32%nat) ->
+  forall ripemd160 sha1 sha256 : bytes -> bytes,
+  (forall x, lenZ (ripemd160 x) < 2^31 /\ lenZ (sha1 x) < 2^31 /\ lenZ (sha256 x) < 2^31) ->
+  forall fl, (f_cleanstack fl = true -> f_p2sh fl = true) ->
+  forall t t' idx ht d k pkb h,
+  let hh := ripemd160 (sha256 pkb) in
+  let spk := [x76; xa9] ++ ref_push hh ++ [x88; xac] in
+  0 <= ht < 256 -> sec1_dec E pkb = Some (pub E d) -> length hh = 20%nat ->
+  signature_hash H spk t idx ht = Ok h ->
+  valid_nonce E d (be_dec h) k ->
+  (tx_version t' = tx_version t /\ tx_lock t' = tx_lock t /\ tx_vout t' = tx_vout t /\
+   Forall2 (fun a b => ti_prevout a = ti_prevout b /\ ti_seq a = ti_seq b) (tx_vin t) (tx_vin t')) ->
+  exists sigder, cec_sign E d h k = Ok sigder /\
+    (sigder ++ [z2b ht] <> hh ->
+     verify_script (real_checksig H E t' idx) ripemd160 sha1 sha256 fl
+       (ref_push (sigder ++ [z2b ht]) ++ ref_push pkb) spk = Ok tt).
+Proof. exact accept_p2pkh. Qed.
+(* the public-key hypothesis holds for the encodings CECKey.get_pubkey produces: compressed from
+   the group laws alone; uncompressed when c_affine (which curve_laws does not specify) returns
+   the point with the given coordinates *)
+Theorem C05_pubkey_compressed : forall E, curve_laws E -> c_p E <= 2 ^ 256 -> forall d, 1 <= d < c_n E ->
+  sec1_dec E (sec1_enc E Compressed (pub E d)) = Some (pub E d).
+Proof. exact (fun E L P d R => sec1_dec_enc_compressed E L (pub E d) P (pub_nonzero E L d R)). Qed.
+Theorem C05_pubkey_uncompressed : forall E, curve_laws E -> c_p E <= 2 ^ 256 -> forall d, 1 <= d < c_n E ->
+  0 <= c_y E (pub E d) < 2 ^ 256 -> c_affine E (c_x E (pub E d)) (c_y E (pub E d)) = Some (pub E d) ->
+  sec1_dec E (sec1_enc E Uncompressed (pub E d)) = Some (pub E d).
+Proof. exact (fun E L P d R => sec1_dec_enc_uncompressed E L (pub E d) P (pub_nonzero E L d R)). Qed.
+
+(* the same with the key object's own compressed public key (CECKey.get_pubkey, C13_pubkey): no
+   hypothesis on the encoding is left *)
+Theorem C05_accept_p2pk_compressed : forall H E, curve_laws E -> c_n E < 2 ^ 256 -> c_p E <= 2 ^ 256 ->
+  value_msb 256 max_mod_half_order = c_n E / 2 -> (forall b, length (H b) = 32%nat) ->
+  forall ripemd160 sha1 sha256 : bytes -> bytes,
+  (forall x, lenZ (ripemd160 x) < 2^31 /\ lenZ (sha1 x) < 2^31 /\ lenZ (sha256 x) < 2^31) ->
+  forall fl, (f_cleanstack fl = true -> f_p2sh fl = true) ->
+  forall t t' idx ht d k h,
+  let pkb := sec1_enc E Compressed (pub E d) in
+  0 <= ht < 256 -> 1 <= d < c_n E ->
+  signature_hash H (p2pk_script pkb) t idx ht = Ok h -> valid_nonce E d (be_dec h) k -> unsigned_eq t t' ->
+  exists sigder, cec_sign E d h k = Ok sigder /\
+    verify_script (real_checksig H E t' idx) ripemd160 sha1 sha256 fl
+      (ref_push (sigder ++ [z2b ht])) (p2pk_script pkb) = Ok tt.
+Proof. exact accept_p2pk_compressed. Qed.
+Theorem C05_accept_p2pkh_compressed : forall H E, curve_laws E -> c_n E < 2 ^ 256 -> c_p E <= 2 ^ 256 ->
+  value_msb 256 max_mod_half_order = c_n E / 2 -> (forall b, length (H b) = 32%nat) ->
+  forall ripemd160 sha1 sha256 : bytes -> bytes,
+  (forall x, lenZ (ripemd160 x) < 2^31 /\ lenZ (sha1 x) < 2^31 /\ lenZ (sha256 x) < 2^31) ->
+  forall fl, (f_cleanstack fl = true -> f_p2sh fl = true) ->
+  forall t t' idx ht d k h,
+  let pkb := sec1_enc E Compressed (pub E d) in let hh := ripemd160 (sha256 pkb) in
+  0 <= ht < 256 -> 1 <= d < c_n E -> length hh = 20%nat ->
+  signature_hash H (p2pkh_script hh) t idx ht = Ok h -> valid_nonce E d (be_dec h) k -> unsigned_eq t t' ->
+  exists sigder, cec_sign E d h k = Ok sigder /\
+    (sigder ++ [z2b ht] <> hh ->
+     verify_script (real_checksig H E t' idx) ripemd160 sha1 sha256 fl
+       (ref_push (sigder ++ [z2b ht]) ++ ref_push pkb) (p2pkh_script hh) = Ok tt).
+Proof. exact accept_p2pkh_compressed. Qed.
+
+(* ---------- bare m-of-n multisig and P2SH ---------- *)
+(* the names used below, spelled out *)
+Theorem C05_accept_defs :
+  (forall ds, pushes ds = concat (map ref_push ds)) /\
+  (forall pkb, p2pk_script pkb = ref_push pkb ++ [xac]) /\
+  (forall kh, p2pkh_script kh = [x76; xa9] ++ ref_push kh ++ [x88; xac]) /\
+  (forall hh, p2sh_script hh = [xa9] ++ ref_push hh ++ [x87]) /\
+  (forall m pks, multisig_script m pks = [z2b (0x50 + m)] ++ pushes pks ++ [z2b (0x50 + lenZ pks); xae]) /\
+  (forall t t', unsigned_eq t t' <->
+     tx_version t' = tx_version t /\ tx_lock t' = tx_lock t /\ tx_vout t' = tx_vout t /\
+     Forall2 (fun a b => ti_prevout a = ti_prevout b /\ ti_seq a = ti_seq b) (tx_vin t) (tx_vin t')) /\
+  (* "sg is a library signature for input idx of t, subscript code, under the key pk encodes" *)
+  (forall H E code t idx sg pk, lib_signed H E code t idx sg pk <->
+     exists d k ht h sigder, 0 <= ht < 256 /\ sec1_dec E pk = Some (pub E d) /\
+       signature_hash H code t idx ht = Ok h /\ valid_nonce E d (be_dec h) k /\
+       cec_sign E d h k = Ok sigder /\ sg = sigder ++ [z2b ht]).
+Proof. exact accept_defs. Qed.
+(* ... and they are what the MODEL of the library's CScript([...]) constructor builds (C08):
+   CScript([pubkey, OP_CHECKSIG]), CScript([OP_DUP, OP_HASH160, h, OP_EQUALVERIFY, OP_CHECKSIG]),
+   CScript([OP_HASH160, h, OP_EQUAL]), CScript([m, pk_1, .., pk_n, n, OP_CHECKMULTISIG]),
+   CScript([x_1, .., x_k]) and CScript([OP_0, sig_1, ..]) *)
+Theorem C05_templates_built :
+  (forall pkb : bytes, lenZ pkb < 2^32 -> build [TBytes pkb; TOp OP_CHECKSIG] = Ok (p2pk_script pkb)) /\
+  (forall kh : bytes, lenZ kh < 2^32 ->
+     build [TOp OP_DUP; TOp OP_HASH160; TBytes kh; TOp OP_EQUALVERIFY; TOp OP_CHECKSIG] = Ok (p2pkh_script kh)) /\
+  (forall hh : bytes, lenZ hh < 2^32 -> build [TOp OP_HASH160; TBytes hh; TOp OP_EQUAL] = Ok (p2sh_script hh)) /\
+  (forall (m : Z) (pks : list bytes), 1 <= m <= 16 -> 1 <= lenZ pks <= 16 -> Forall (fun d => lenZ d < 2^32) pks ->
+     build ([TInt m] ++ map TBytes pks ++ [TInt (lenZ pks); TOp OP_CHECKMULTISIG]) = Ok (multisig_script m pks)) /\
+  (forall ds : list bytes, Forall (fun d => lenZ d < 2^32) ds -> build (map TBytes ds) = Ok (pushes ds)) /\
+  (forall ds : list bytes, Forall (fun d => lenZ d < 2^32) ds -> build (TOp OP_0 :: map TBytes ds) = Ok (pushes ([] :: ds))).
+Proof. exact templates_built. Qed.
+(* in_order R sigs keys (Proofs/AcceptMulti.v): the signatures, in scriptSig order, are R-related to
+   an order-preserving selection of the keys, in scriptPubKey order:
+     in_order R [] keys;   R sg k -> in_order R sigs keys -> in_order R (sg :: sigs) (k :: keys);
+     in_order R sigs keys -> in_order R sigs (k :: keys).
+   OP_m <pk_1> .. <pk_n> OP_n OP_CHECKMULTISIG with m = the number of signatures, 1 <= m <= n <= 16,
+   every listed key decodable; scriptSig OP_0 <sig_1> .. <sig_m>; each signer may use his own hash
+   type and nonce *)
+Theorem C05_accept_multisig : forall H E, curve_laws E -> c_n E < 2 ^ 256 ->
+  value_msb 256 max_mod_half_order = c_n E / 2 -> (forall b, length (H b) = 32%nat) ->
+  forall ripemd160 sha1 sha256 : bytes -> bytes,
+  (forall x, lenZ (ripemd160 x) < 2^31 /\ lenZ (sha1 x) < 2^31 /\ lenZ (sha256 x) < 2^31) ->
+  forall fl, (f_cleanstack fl = true -> f_p2sh fl = true) ->
+  forall (sigs pks : list bytes) t t' idx,
+  let spk := multisig_script (lenZ sigs) pks in
+  1 <= lenZ sigs -> lenZ pks <= 16 ->
+  Forall (fun pk => exists Q : pt E, sec1_dec E pk = Some Q) pks ->
+  in_order (lib_signed H E spk t idx) sigs pks -> unsigned_eq t t' ->
+  verify_script (real_checksig H E t' idx) ripemd160 sha1 sha256 fl (pushes ([] :: sigs)) spk = Ok tt.
+Proof. exact accept_multisig. Qed.
+(* P2SH: scriptPubKey OP_HASH160 <hash160 redeem> OP_EQUAL; scriptSig = the inner scriptSig followed
+   by <redeem>; the signer hashes with the REDEEM script as subscript.  With the P2SH flag the redeem
+   script is run (and CLEANSTACK holds); without it only the hash comparison is. *)
+Theorem C05_accept_p2sh_p2pk : forall H E, curve_laws E -> c_n E < 2 ^ 256 ->
+  value_msb 256 max_mod_half_order = c_n E / 2 -> (forall b, length (H b) = 32%nat) ->
+  forall ripemd160 sha1 sha256 : bytes -> bytes,
+  (forall x, lenZ (ripemd160 x) < 2^31 /\ lenZ (sha1 x) < 2^31 /\ lenZ (sha256 x) < 2^31) ->
+  forall fl, (f_cleanstack fl = true -> f_p2sh fl = true) ->
+  forall t t' idx ht d k pkb h,
+  let rs := p2pk_script pkb in let hh := ripemd160 (sha256 rs) in
+  0 <= ht < 256 -> sec1_dec E pkb = Some (pub E d) -> length hh = 20%nat ->
+  signature_hash H rs t idx ht = Ok h -> valid_nonce E d (be_dec h) k -> unsigned_eq t t' ->
+  exists sigder, cec_sign E d h k = Ok sigder /\
+    verify_script (real_checksig H E t' idx) ripemd160 sha1 sha256 fl
+      (pushes [sigder ++ [z2b ht]; rs]) (p2sh_script hh) = Ok tt.
+Proof. exact accept_p2sh_p2pk. Qed.
+Theorem C05_accept_p2sh_p2pkh : forall H E, curve_laws E -> c_n E < 2 ^ 256 ->
+  value_msb 256 max_mod_half_order = c_n E / 2 -> (forall b, length (H b) = 32%nat) ->
+  forall ripemd160 sha1 sha256 : bytes -> bytes,
+  (forall x, lenZ (ripemd160 x) < 2^31 /\ lenZ (sha1 x) < 2^31 /\ lenZ (sha256 x) < 2^31) ->
+  forall fl, (f_cleanstack fl = true -> f_p2sh fl = true) ->
+  forall t t' idx ht d k pkb h,
+  let kh := ripemd160 (sha256 pkb) in let rs := p2pkh_script kh in let hh := ripemd160 (sha256 rs) in
+  0 <= ht < 256 -> sec1_dec E pkb = Some (pub E d) -> length kh = 20%nat -> length hh = 20%nat ->
+  signature_hash H rs t idx ht = Ok h -> valid_nonce E d (be_dec h) k -> unsigned_eq t t' ->
+  exists sigder, cec_sign E d h k = Ok sigder /\
+    (sigder ++ [z2b ht] <> kh ->
+     verify_script (real_checksig H E t' idx) ripemd160 sha1 sha256 fl
+       (pushes [sigder ++ [z2b ht]; pkb; rs]) (p2sh_script hh) = Ok tt).
+Proof. exact accept_p2sh_p2pkh. Qed.
+(* the redeem script must fit one push (520 bytes: up to 15 compressed / 7 uncompressed keys) *)
+Theorem C05_accept_p2sh_multisig : forall H E, curve_laws E -> c_n E < 2 ^ 256 ->
+  value_msb 256 max_mod_half_order = c_n E / 2 -> (forall b, length (H b) = 32%nat) ->
+  forall ripemd160 sha1 sha256 : bytes -> bytes,
+  (forall x, lenZ (ripemd160 x) < 2^31 /\ lenZ (sha1 x) < 2^31 /\ lenZ (sha256 x) < 2^31) ->
+  forall fl, (f_cleanstack fl = true -> f_p2sh fl = true) ->
+  forall (sigs pks : list bytes) t t' idx,
+  let rs := multisig_script (lenZ sigs) pks in let hh := ripemd160 (sha256 rs) in
+  1 <= lenZ sigs -> lenZ pks <= 16 -> lenZ rs <= 520 -> length hh = 20%nat ->
+  Forall (fun pk => exists Q : pt E, sec1_dec E pk = Some Q) pks ->
+  in_order (lib_signed H E rs t idx) sigs pks -> unsigned_eq t t' ->
+  verify_script (real_checksig H E t' idx) ripemd160 sha1 sha256 fl
+    (pushes (([] :: sigs) ++ [rs])) (p2sh_script hh) = Ok tt.
+Proof. exact accept_p2sh_multisig. Qed.
+
+(* non-vacuity of C05_accept_*: every hypothesis except curve_laws (not proved for the executable
+   curve, see Props/C13.v) holds on secp256k1 for secret 1, nonce 2, input 1 of a 2-in/2-out
+   transaction, SIGHASH_SINGLE|ANYONECANPAY, with toy hash functions of the right output lengths *)
+Example C05_accept_nonvacuous :
+  let H := toy_hash 32 in let r160 := toy_hash 20 in let s256 := toy_hash 32 in
+  let E := secp256k1 in let d := 1 in let k := 2 in let ht := 0x83 in let idx := 1 in
+  (forall b, length (H b) = 32%nat) /\
+  (forall x, lenZ (r160 x) < 2^31 /\ lenZ (s256 x) < 2^31 /\ lenZ (s256 x) < 2^31) /\
+  c_n E < 2 ^ 256 /\ value_msb 256 max_mod_half_order = c_n E / 2 /\
+  sec1_dec E ex_pk = Some (pub E d) /\ length (r160 (s256 ex_pk)) = 20%nat /\
+  (exists h sigder, signature_hash H (ref_push ex_pk ++ [xac]) (ex_tx []) idx ht = Ok h /\ valid_nonce E d (be_dec h) k /\
+     cec_sign E d h k = Ok sigder /\ unsigned_eq (ex_tx []) (ex_tx (ref_push (sigder ++ [z2b ht])))) /\
+  (exists h sigder, signature_hash H ([x76; xa9] ++ ref_push (r160 (s256 ex_pk)) ++ [x88; xac]) (ex_tx []) idx ht = Ok h /\
+     valid_nonce E d (be_dec h) k /\
+     cec_sign E d h k = Ok sigder /\ sigder ++ [z2b ht] <> r160 (s256 ex_pk) /\
+     unsigned_eq (ex_tx []) (ex_tx (ref_push (sigder ++ [z2b ht]) ++ ref_push ex_pk))).
+Proof. exact accept_hyps_satisfiable. Qed.
+
+(* 2-of-3 multisig on secp256k1, signed by the first and third key (secrets 1 and 3) *)
+Example C05_accept_multisig_nonvacuous :
+  let H := toy_hash 32 in let r160 := toy_hash 20 in let s256 := toy_hash 32 in
+  let spk := multisig_script 2 ex_pks in
+  Forall (fun pk => exists Q : pt secp256k1, sec1_dec secp256k1 pk = Some Q) ex_pks /\
+  lenZ spk <= 520 /\ length (r160 (s256 spk)) = 20%nat /\
+  exists sigs : list bytes, lenZ sigs = 2 /\ in_order (lib_signed H secp256k1 spk (ex_tx []) 1) sigs ex_pks /\
+    unsigned_eq (ex_tx []) (ex_tx (pushes ([] :: sigs))).
+Proof. exact accept_multisig_hyps_satisfiable. Qed.
+
 Print Assumptions C05_noninterference.
 Print Assumptions C05_preimage_is_view.
 Print Assumptions C05_commitment.
@@ -82,3 +301,15 @@ Print Assumptions C05_uncommitted_other_inputs_anyonecanpay.
 Print Assumptions C05_uncommitted_outputs_none.
 Print Assumptions C05_uncommitted_outputs_single.
 Print Assumptions C05_committed_always.
+Print Assumptions C05_accept_p2pk.
+Print Assumptions C05_accept_p2pkh.
+Print Assumptions C05_pubkey_compressed.
+Print Assumptions C05_pubkey_uncompressed.
+Print Assumptions C05_accept_defs.
+Print Assumptions C05_accept_multisig.
+Print Assumptions C05_accept_p2sh_p2pk.
+Print Assumptions C05_accept_p2sh_p2pkh.
+Print Assumptions C05_accept_p2sh_multisig.
+Print Assumptions C05_templates_built.
+Print Assumptions C05_accept_p2pk_compressed.
+Print Assumptions C05_accept_p2pkh_compressed.
